@@ -30,6 +30,7 @@ def run(ctx):
     proofs_ok = ctx.build_and_audit()
     spec_fail, lines, refs = [], [], []
     skipped_singular = [0]
+    pub = [0]
     dist = {}
     evals = 0
     nw = 2 if ctx.tier == "quick" else 5
@@ -102,6 +103,12 @@ def run(ctx):
                                       "local energy equals <psi_T|H|phi>/<psi_T|phi>",
                                       {"norb": norb, "nelec": ne, "spin_dependent_h1": spin_dep, "got": str(got), "want": str(want), "tol": TOL[kind]}))
                     break
+            # public route: re-prepared dictionary, batched entry points (one (norb, nelec) per kind and h1 flavour)
+            if dist[kind] <= (2 if ctx.tier == "quick" else 99) and not (spin_dep and ronly):
+                f2, n2 = wf.public_rebuild_batch(kind, trial, wd, desc, sec, psi, rng, norb, ne, "energy", TOL[kind], spin_dep=spin_dep)
+                spec_fail.extend(f2)
+                evals += n2
+                pub[0] += n2
             # restricted entry point on equal blocks (closed shell): sees the average of h1, exactly
             # (for an unrestricted trial with spin-dependent h1 the restricted entry is outside the quantifier)
             if ne[0] == ne[1] and not ronly and hasattr(trial, "_calc_energy_restricted") and kind != "multislater" \
@@ -157,11 +164,12 @@ def run(ctx):
                        "Q(i) (1e-9); (b) all 12 classes x supported (norb, nelec) x {spin-independent, spin-dependent h1 for uhf/ghf/noci/multislater/"
                        "UCISD/GCISD} vs the Fock-space mixed estimator on complex walkers with |overlap| > 0.05 (tolerances: 1e-9 exact formulas, 5e-6 "
                        "finite-difference kinds at eps=1e-4, 5e-4 hand-coded cisd/ucisd with single-precision intermediates); restricted entry vs the "
-                       "estimator with the averaged h1; (c) error ratio under eps halving for the AD kinds")
+                       "estimator with the averaged h1; (c) error ratio under eps halving for the AD kinds; (d) public ham.build_measurement_intermediates on a dictionary "
+                       "already prepared for another Hamiltonian, then batched calc_energy with n_batch in {1,2,3} on 6 distinct walkers")
     ctx.cov["samples"] = [lines[0][:300], json.dumps(dist)]
     ctx.cov["distribution"] = dist
     ctx.cov["skipped"] = {"walkers_with_vanishing_reference_overlap (outside the CI formulas' domain)": skipped_singular[0]}
-    ctx.cov["correspondence"] = {"lean_model_cases": len(refs), "mismatches": len(mism), "spec_evaluations": evals, "fd_convergence_cases": fd_cases}
+    ctx.cov["correspondence"] = {"lean_model_cases": len(refs), "mismatches": len(mism), "spec_evaluations": evals, "fd_convergence_cases": fd_cases, "public_rebuilt_batched_evaluations": pub[0]}
     ctx.assumptions += ["theorem layer covers rhf/uhf (and linear combinations); CI kinds are validated against the Fock-space estimator",
                         "jax.jvp/vjp return derivatives of the traced function (AD kinds)"]
     if mism:
